@@ -997,10 +997,14 @@ Definition C10_all_live_revisions_finalized (c : ccfg) (r : round) : option stri
                                        has_finalizer (e_pre e) fin && negb (has_finalizer (e_post e) fin)
                            | None => false end) (after_hook (r_events r))
       then
-        if forallb (fun x => match answer_for c sent x (r_events r) with
-                             | Some hr => hr_finalized hr
-                             | None => true end) (revs_after c r sent)
-        then None else Some "finalizer-removed-although-a-live-revision-is-not-finalized"
+        if negb (forallb (fun x => match answer_for c sent x (r_events r) with
+                                   | Some hr => hr_finalized hr
+                                   | None => true end) (revs_after c r sent))
+        then Some "finalizer-removed-although-a-live-revision-is-not-finalized" else
+        (* ... and every one of them has been asked: a revision nobody asked has not answered finalized *)
+        if forallb (fun x => match answer_for c sent x (r_events r) with Some _ => true | None => false end)
+                   (revs_after c r sent)
+        then None else Some "finalizer-removed-although-a-live-revision-was-not-asked"
       else None
   | _, _ => None
   end.
